@@ -51,6 +51,55 @@ pub fn generate(rng: &mut Rng, tier: Tier) -> Scn {
             (0..k).map(|_| super::f::gen_len(rng).min(3000)).collect()
         })
         .collect();
+    let mut roller = roller;
+    let mut rolls: Vec<Vec<u32>> = rolls;
+    let mut pre_archives = pre_archives;
+    match rng.weighted(&[36, 2, 2]) {
+        1 => {
+            // wide windows: indices with different numbers of digits are shifted in one roll
+            let pat = *rng.pick(&[PatKind::Name, PatKind::Name, PatKind::Dir, PatKind::Env]);
+            let (base, count) = *rng.pick(&[(0u32, 12u32), (0, 18), (1, 12), (0, 30), (5, 20), (95, 10), (92, 17)]);
+            roller = RollerSpec::Fixed { pat, base, count };
+            pre_archives.retain(|(i, _)| *i < base + count + 3);
+            let n = rng.range(count as u64 + 2, count as u64 + 14) as usize;
+            rolls = (0..n).map(|_| vec![rng.range(1, 40) as u32]).collect();
+        }
+        2 => {
+            // rolled files whose size is an exact multiple of 64 KiB (or one byte off), also across mounts
+            if !matches!(roller, RollerSpec::Delete) && rng.chance(2, 3) {
+                if let RollerSpec::Fixed { base, count, .. } = &roller {
+                    roller = RollerSpec::Fixed { pat: *rng.pick(&[PatKind::SecondMount, PatKind::DirSplit, PatKind::Name]), base: *base, count: (*count).max(2) };
+                }
+            }
+            for (ri, r) in rolls.iter_mut().enumerate() {
+                if rng.chance(2, 3) {
+                    let target = *rng.pick(&[65536u64, 65536, 131072, 65535, 65537, 196608]);
+                    let mut used = 0u64;
+                    for (i, l) in r.iter().enumerate() {
+                        used += r::enc_len_pub(ri as u16, i as u16, *l);
+                    }
+                    if used + 16 < target {
+                        let i = r.len() as u16;
+                        let rest = target - used;
+                        // the last record fills the file up to the target exactly
+                        let mut guess = rest.saturating_sub(14) as u32;
+                        for _ in 0..6 {
+                            let e = r::enc_len_pub(ri as u16, i, guess);
+                            if e > rest {
+                                guess -= (e - rest) as u32;
+                            } else if e < rest {
+                                guess += (rest - e) as u32;
+                            }
+                        }
+                        if r::enc_len_pub(ri as u16, i, guess) == rest {
+                            r.push(guess);
+                        }
+                    }
+                }
+            }
+        }
+        _ => {}
+    }
     let mut purges = vec![];
     if rng.chance(1, 8) && !matches!(roller, RollerSpec::Fixed { pat: PatKind::SecondMount | PatKind::DirSplit, .. }) {
         let n: usize = n.max(1);
@@ -124,6 +173,7 @@ pub fn execute(scn: &Scn, opts: &ExecOpts) -> Outcome {
         silent: vec![],
         via_logger: false,
         std_broken: false,
+        long_path: 0,
         sched_seed: 0,
         policy: kernel::Policy::RoundRobin,
     };
@@ -356,7 +406,12 @@ pub fn shrink(s: &Scn) -> Vec<Scn> {
 pub fn fault_variants(scn: &Scn, hits: &[(String, u32)]) -> Vec<Scn> {
     let errnos = [libc::EACCES, libc::EIO, libc::ENOSPC];
     let mut out = vec![];
+    // wide windows pass hundreds of shift sites per history: an evenly spaced sample of them
+    let stride = (hits.len() / 60).max(1);
     for (k, (site, nth)) in hits.iter().enumerate() {
+        if k % stride != 0 {
+            continue;
+        }
         if r::FAULT_SITES.contains(&site.as_str()) && site != "rf.open" {
             let mut c = scn.clone();
             c.faults = vec![kernel::FaultSpec { site: site.clone(), nth: *nth, errno: errnos[k % errnos.len()] }];
